@@ -21,6 +21,7 @@ import (
 	"fmt"
 	"io"
 	"math"
+	"runtime"
 	"runtime/metrics"
 	"sort"
 	"strings"
@@ -363,6 +364,27 @@ func allocated() uint64 {
 	return allocSample[0].Value.Uint64()
 }
 
+// meter runs f (a self-contained, deterministic decode) and returns the bytes
+// it allocated. The cheap counter (runtime/metrics) lags behind by up to a few
+// MiB because small-object statistics are flushed span by span; whenever its
+// reading is anywhere near the budgets used here (>= 1 MiB) the decode is run
+// once more between two runtime.ReadMemStats calls, which flush the caches and
+// give the exact figure, so that the verdict never depends on that lag.
+func meter(f func()) uint64 {
+	before := allocated()
+	f()
+	used := allocated() - before
+	if used >= 1<<20 {
+		var m runtime.MemStats
+		runtime.ReadMemStats(&m)
+		t0 := m.TotalAlloc
+		f()
+		runtime.ReadMemStats(&m)
+		used = m.TotalAlloc - t0
+	}
+	return used
+}
+
 // ---------- simulated reader ----------
 
 var errEIO = errors.New("verif: injected I/O error")
@@ -636,9 +658,10 @@ func (r *run) wkbBytes(kind string, in []byte, orig []byte) {
 	r.note(kind, changed, uint64(core.NewHasher().Str("wkb").Str(string(in))))
 	var g geom.Geom
 	var err error
-	before := allocated()
-	p, v, st := core.Protect(func() { g, err = wkb.Decode(in) })
-	used := allocated() - before
+	var p bool
+	var v interface{}
+	var st string
+	used := meter(func() { p, v, st = core.Protect(func() { g, err = wkb.Decode(in) }) })
 	r.log.EventInts("wkb."+kind, int64(len(in)), b2i(err == nil))
 	if r.log.Keep && r.notes < 40 {
 		r.notes++
@@ -898,15 +921,19 @@ func (r *run) streamFaults(item []byte) {
 		if r.res.Viol != nil {
 			return
 		}
-		rd := &simReader{data: item, chunk: s.chunk, zeroAt: s.zeroAt, failAt: failAt, failErr: ferr, eofWithData: s.eofData}
+		mk := func() *simReader {
+			return &simReader{data: item, chunk: s.chunk, zeroAt: s.zeroAt, failAt: failAt, failErr: ferr, eofWithData: s.eofData}
+		}
+		rd := mk()
 		key := uint64(core.NewHasher().Str("stream").Str(string(item)).Int(s.chunk).Int(s.zeroAt).Int(failAt).Str(kind))
 		r.note(kind, true, key)
 		r.scheds[uint64(core.NewHasher().Int(s.chunk).Int(s.zeroAt).Int(failAt).Str(kind))] = struct{}{}
 		var g geom.Geom
 		var err error
-		before := allocated()
-		p, v, st := core.Protect(func() { g, err = wkb.Read(rd) })
-		used := allocated() - before
+		var p bool
+		var v interface{}
+		var st string
+		used := meter(func() { rd = mk(); p, v, st = core.Protect(func() { g, err = wkb.Read(rd) }) })
 		r.log.EventInts("stream."+kind, int64(s.chunk), int64(s.zeroAt), int64(failAt), b2i(err == nil))
 		if p {
 			r.fail("panic", "wkb.Read,"+kind, "wkb.Read panicked (item %s, chunk %d, zero-read every %d, %s at offset %d): %v %s", hexdump(item), s.chunk, s.zeroAt, kind, failAt, v, core.TrimStack(st, 4))
@@ -943,14 +970,16 @@ func (r *run) streamFaults(item []byte) {
 	for k := 0; k < len(full) && r.res.Viol == nil; k += step0(len(full)) {
 		for _, ch := range []int{0, 5, 19} {
 			item = full[:k]
-			rd := &simReader{data: item, chunk: ch, failAt: -1, eofWithData: true}
+			mk := func() *simReader { return &simReader{data: item, chunk: ch, failAt: -1, eofWithData: true} }
+			rd := mk()
 			key := uint64(core.NewHasher().Str("stream-trunc").Str(string(item)).Int(ch))
 			r.note("reader-truncated-eof-with-data", true, key)
 			var g geom.Geom
 			var err error
-			before := allocated()
-			p, v, st := core.Protect(func() { g, err = wkb.Read(rd) })
-			used := allocated() - before
+			var p bool
+			var v interface{}
+			var st string
+			used := meter(func() { rd = mk(); p, v, st = core.Protect(func() { g, err = wkb.Read(rd) }) })
 			r.log.EventInts("stream.trunc-eof-data", int64(k), int64(ch), b2i(err == nil))
 			if p {
 				r.fail("panic", "wkb.Read,reader-truncated-eof-with-data", "wkb.Read panicked on a stream cut after %d of %d bytes whose reader returns its last chunk (chunk size %d) together with io.EOF: %v %s", k, len(full), ch, v, core.TrimStack(st, 4))
@@ -1012,9 +1041,10 @@ func (r *run) hexItem() {
 		r.note("hex:"+kind, in != s, uint64(core.NewHasher().Str("hex").Str(in)))
 		var g geom.Geom
 		var err error
-		before := allocated()
-		p, v, st := core.Protect(func() { g, err = hex.Decode(in) })
-		used := allocated() - before
+		var p bool
+		var v interface{}
+		var st string
+		used := meter(func() { p, v, st = core.Protect(func() { g, err = hex.Decode(in) }) })
 		r.log.EventInts("hex."+kind, int64(len(in)), b2i(err == nil))
 		if p {
 			r.fail("panic", "hex.Decode,"+kind, "hex.Decode panicked on %q (fault %s): %v %s", trunc(in), kind, v, core.TrimStack(st, 4))
@@ -1101,9 +1131,10 @@ func (r *run) jsonDecode(kind string, in []byte, orig []byte) {
 	r.note("json:"+kind, !bytes.Equal(in, orig), uint64(core.NewHasher().Str("json").Str(string(in))))
 	var g geom.Geom
 	var err error
-	before := allocated()
-	p, v, st := core.Protect(func() { g, err = geojson.Decode(in) })
-	used := allocated() - before
+	var p bool
+	var v interface{}
+	var st string
+	used := meter(func() { p, v, st = core.Protect(func() { g, err = geojson.Decode(in) }) })
 	r.log.EventInts("json."+kind, int64(len(in)), b2i(err == nil))
 	if p {
 		r.fail("panic", "geojson.Decode,"+kind, "geojson.Decode panicked on %q: %v %s", trunc(string(in)), v, core.TrimStack(st, 4))
@@ -1293,9 +1324,10 @@ func (r *run) valueItem() {
 		r.note("value:shaped-coordinates", true, uint64(core.NewHasher().Str("val").Str(desc)))
 		var g geom.Geom
 		var err error
-		before := allocated()
-		p, v, st := core.Protect(func() { g, err = geojson.FromGeoJSON(gv) })
-		used := allocated() - before
+		var p bool
+		var v interface{}
+		var st string
+		used := meter(func() { p, v, st = core.Protect(func() { g, err = geojson.FromGeoJSON(gv) }) })
 		r.log.Eventf("value %s ok=%v", trunc(desc), err == nil)
 		if p {
 			r.fail("panic", "geojson.FromGeoJSON", "FromGeoJSON panicked on %s: %v %s", trunc(desc), v, core.TrimStack(st, 4))
@@ -1389,9 +1421,10 @@ func (r *run) adversarial() {
 		r.note("hex:adversarial-frame", true, uint64(core.NewHasher().Str("hexadv").Str(s)))
 		var g geom.Geom
 		var err error
-		before := allocated()
-		p, v, st := core.Protect(func() { g, err = hex.Decode(s) })
-		used := allocated() - before
+		var p bool
+		var v interface{}
+		var st string
+		used := meter(func() { p, v, st = core.Protect(func() { g, err = hex.Decode(s) }) })
 		if p {
 			r.fail("panic", "hex.Decode,adversarial-frame", "hex.Decode panicked on an adversarial frame of %d chars: %v %s", len(s), v, core.TrimStack(st, 4))
 		} else if used > budget(len(s)) {
@@ -1411,9 +1444,10 @@ func (r *run) hexString(kind, in string) {
 	r.note("hex:"+kind, true, uint64(core.NewHasher().Str("hexs").Str(in)))
 	var g geom.Geom
 	var err error
-	before := allocated()
-	p, v, st := core.Protect(func() { g, err = hex.Decode(in) })
-	used := allocated() - before
+	var p bool
+	var v interface{}
+	var st string
+	used := meter(func() { p, v, st = core.Protect(func() { g, err = hex.Decode(in) }) })
 	r.log.EventInts("hexs."+kind, int64(len(in)), b2i(err == nil))
 	if p {
 		r.fail("panic", "hex.Decode,"+kind, "hex.Decode panicked on %q: %v %s", trunc(in), v, core.TrimStack(st, 4))
